@@ -33,3 +33,17 @@ def c04_inner(a, b):
 
 def c04_outer(a, b):
     return c04_inner(a, b) * 3 + c04_inner(b, a)
+
+
+_C15_W = np.random.default_rng([520, 99]).standard_normal((520, 520)).astype(np.float32) / 23.0
+
+
+@onnx_function
+def c15_inner(v):
+    import jax.numpy as jnp
+
+    return jnp.tanh(v @ _C15_W)
+
+
+def c15_outer(x):
+    return c15_inner(x) * 2.0 + c15_inner(x * 0.5)
